@@ -235,6 +235,9 @@ type opCtx struct {
 	hash   common.Hash // submitted transaction
 	round  int         // concurrent round number (1-based)
 	drop0  bool        // commit ops: the age-based drop of offered transactions was set to "everything" for this commit
+	// commit ops: sender of the submission that was admitted at the commit's pool-lock point (-1: none). That
+	// submission can promote the sender's queued transactions to the offered list BEFORE the commit's update runs.
+	injSender int
 }
 
 // plentiful is a gross bound, not a fee model: a sender that still owns > 10^23 wei in the speculative state
@@ -339,7 +342,12 @@ func (w *world) checkMembership(s *mempool.VerifSnapshot, op opCtx, after string
 		if wasPooled && cur == "" {
 			// (judged per operation only: over a whole concurrent round the per-account cap may legitimately have dropped
 			// it at a moment when it was the highest queued nonce)
-			if t.Loc == "future" && op.kind != "round" && w.wronglyDropped(t, s, next) {
+			// (not judged when the harness itself made the age rule drop every offered transaction at this commit AND a
+			// submission of the same sender was admitted at the commit's lock point: that submission promotes the queued
+			// transaction to the offered list first, where the pinned age rule then drops it; seen once in 5000 thorough
+			// cases at seed 2 and traced to exactly that)
+			promotedThenAged := op.kind == "commit" && op.drop0 && op.injSender >= 0 && op.injSender == t.Sender
+			if t.Loc == "future" && op.kind != "round" && !promotedThenAged && w.wronglyDropped(t, s, next) {
 				w.violation("promotion/executable-dropped-instead-of-promoted",
 					fmt.Sprintf("queued tx %s of rich sender %s has the next executable nonce %d and the good list has room, but after %s it is neither offered, queued nor committed", short(h), w.fromStr(t), t.Nonce, after), s,
 					map[string]interface{}{"sender_history": w.slice(w.senderOf(t).Addr)})
@@ -348,7 +356,7 @@ func (w *world) checkMembership(s *mempool.VerifSnapshot, op opCtx, after string
 			// A promotion that runs out of room must leave the rest of the run queued: the cheap plain transaction of a
 			// rich sender that carries the sender's next executable nonce stays executable, and no cap evicts queued
 			// transactions while the submitted transaction itself went to the offered list.
-			if t.Loc == "future" && ((op.kind == "submit" && op.sender >= 0 && op.sender == t.Sender && loc[op.hash] == "good") || op.kind == "commit") && w.validQueued(t, next) {
+			if t.Loc == "future" && ((op.kind == "submit" && op.sender >= 0 && op.sender == t.Sender && loc[op.hash] == "good") || op.kind == "commit") && !promotedThenAged && w.validQueued(t, next) {
 				w.violation("promotion/valid-queued-tx-dropped-at-promotion",
 					fmt.Sprintf("queued tx %s of rich sender %s (nonce %d = the next executable nonce) is neither offered, queued nor committed after %s", short(h), w.fromStr(t), t.Nonce, after), s,
 					map[string]interface{}{"sender_history": w.slice(w.senderOf(t).Addr)})
